@@ -104,7 +104,28 @@ def _impl(args):
         spec = f"{lx['id']}:1"
         w = wn.Wordnet(spec)
         out = {'init': [], 'uninit': [], 'wn': []}
+        # a second lexicon holding the candidate lemmas the first one lacks, with its own initialised Morphy in
+        # the same process: each Morphy answers from the words of its own wordnet only
+        have = {(e['lemma']['partOfSpeech'], e['lemma']['writtenForm']) for e in lx['entries']}
+        cands = []
+        for q in qs:
+            for pp, forms in Morphy()(q, None).items():
+                for ff in forms:
+                    if pp in ('n', 'v', 'a', 'r', 's') and (pp, ff) not in have and (pp, ff) not in cands:
+                        cands.append((pp, ff))
+        cands = cands[:40]
+        if cands:
+            zz = {'id': 'zz', 'version': '1', 'label': 'other', 'language': 'en', 'email': 'a@b.c', 'license': 'L', 'meta': None,
+                  'entries': [{'id': f'zz-{i}', 'meta': None, 'lemma': {'writtenForm': ff, 'partOfSpeech': pp},
+                               'senses': [{'id': f'zz-{i}-s', 'synset': f'zz-ss-{i}', 'meta': None}]} for i, (pp, ff) in enumerate(cands)],
+                  'synsets': [{'id': f'zz-ss-{i}', 'ili': '', 'partOfSpeech': pp, 'meta': None} for i, (pp, ff) in enumerate(cands)]}
+            fz = d / 'zz.xml'
+            fz.write_text(docs.to_xml(docs.resource([zz], '1.1')), encoding='utf-8')
+            wn.add(fz, progress_handler=None)
         mi, mu = Morphy(w), Morphy()
+        if cands:
+            mz = Morphy(wn.Wordnet('zz:1'))
+            mz('axes')
         canon = lambda r: {('None' if k is None else k): sorted(v) for k, v in r.items()}
         for q in qs:
             for p in POSES:
@@ -113,7 +134,12 @@ def _impl(args):
         # Wordnet-level: union over the proposed (pos, form) pairs (no normalizer: exact matching)
         plain = wn.Wordnet(spec, normalizer=None)
         for mode, m in (('init', mi), ('uninit', mu)):
-            lw = wn.Wordnet(spec, normalizer=None, lemmatizer=m)
+            if mode == 'init':
+                # the documented way to use an initialised Morphy: assign it to the Wordnet it was built from
+                lw = wn.Wordnet(spec, normalizer=None)
+                lw.lemmatizer = m
+            else:
+                lw = wn.Wordnet(spec, normalizer=None, lemmatizer=m)
             for q in qs[:12]:
                 for p in (None, 'n', 'v', 'x'):
                     got = [x.id for x in lw.words(q, p)]
